@@ -487,6 +487,11 @@ pub mod repair_race {
         pub peer_keyspaces: usize,
         /// local first uses on the fresh node: (ms after its poller tick, extra yields, keyspace, key)
         pub writes: Vec<(u64, usize, usize, u64)>,
+        /// kind of each local first use: 0 put, 1 del, 2 put_many, 3 del_many
+        pub kinds: Vec<u8>,
+        /// indices of the fresh node's mutating storage calls that fail (nothing written), reported after `fail_latency_ms`
+        pub failing_calls: Vec<u64>,
+        pub fail_latency_ms: u64,
         pub storage_latency_ms: u64,
         pub seed: u64,
     }
@@ -518,8 +523,15 @@ pub mod repair_race {
 
         fn gen(&self, src: &mut Src) -> Case {
             let peer_keyspaces = 1 + src.below(6);
-            let writes = (0..1 + src.below(4)).map(|_| (*src.pick(&[0u64, 0, 0, 0, 1, 3]), src.below(12), src.below(peer_keyspaces + 1), 50 + src.below64(3))).collect();
-            Case { peer_keyspaces, writes, storage_latency_ms: *src.pick(&[0u64, 1, 3]), seed: src.word() }
+            let writes: Vec<(u64, usize, usize, u64)> =
+                (0..1 + src.below(4)).map(|_| (*src.pick(&[0u64, 0, 0, 0, 1, 3]), src.below(12), src.below(peer_keyspaces + 1), 50 + src.below64(3))).collect();
+            let storage_latency_ms = *src.pick(&[0u64, 1, 3]);
+            let seed = src.word();
+            // drawn after everything else, so that the cases of earlier versions keep their meaning
+            let kinds = writes.iter().map(|_| *src.pick(&[0u8, 0, 0, 1, 2, 3])).collect();
+            let failing_calls = if src.chance(1, 2) { (0..1 + src.below(2)).map(|_| src.below64(5)).collect() } else { vec![] };
+            let fail_latency_ms = *src.pick(&[0u64, 1, 2, 5]);
+            Case { peer_keyspaces, writes, kinds, failing_calls, fail_latency_ms, storage_latency_ms, seed }
         }
 
         fn run(&self, case: &Case) -> Outcome {
@@ -531,13 +543,16 @@ pub mod repair_race {
                 "keyspaces_only_the_peer_holds": case.peer_keyspaces,
                 "storage_latency_ms_of_the_fresh_node": case.storage_latency_ms,
                 "local_first_uses_(ms_after_the_poller_tick,clock_round_trips,keyspace,key)": case.writes,
+                "kind_of_each_local_first_use_(0_put,1_del,2_put_many,3_del_many)": case.kinds,
+                "failing_storage_calls_of_the_fresh_node_(index_among_its_mutating_calls)": case.failing_calls,
+                "failure_reported_after_ms": case.fail_latency_ms,
             })
         }
 
         fn rule(&self) -> &'static str {
             "two real nodes; node 1 holds 1-6 keyspaces node 2 has never heard of (everything addressed to node 2 is \
              dropped, it can only poll); at node 2's next poller tick -- when its repair path meets those names for the \
-             first time -- 1-4 local client writes use the same names (or one more fresh name) 0-3 ms and 0-11 clock round trips \
+             first time -- 1-4 local client operations (put, del, put_many, del_many through the public handle; in half of the cases one or two of the node's              first five storage writes fail, the failure being reported 0-5 ms later) use the same names (or one more fresh name) 0-3 ms and 0-11 clock round trips \
              after the tick (as spawned tasks, in lock-step with the repair path), on storage that takes 0-3 ms per call; oracle: afterwards every entry node 2's storage holds \
              is in the set a fresh lookup of the keyspace serialises (same or newer stamp) and the set equals storage; \
              non-trivial = a local write used a keyspace name the peer also holds"
@@ -562,6 +577,14 @@ pub mod repair_race {
         for k in 0..case.peer_keyspaces {
             let _ = nodes[0].handle.put(&ks_name(k), 1, vec![k as u8; 3], Consistency::None).await;
         }
+        {
+            let mut g = nodes[1].store.inner.lock();
+            let base = g.mutating_calls;
+            for k in &case.failing_calls {
+                g.faults.insert(base + k, crate::store::Fault::FailBefore);
+            }
+            g.fail_latency_ms = case.fail_latency_ms;
+        }
         // to node 2's next tick
         crate::c01::run_op(&nodes, &crate::c01::Op::ToPollerTick(0)).await;
         let shared = case.writes.iter().any(|(_, _, ks, _)| *ks < case.peer_keyspaces);
@@ -570,7 +593,8 @@ pub mod repair_race {
         let futs: Vec<_> = case
             .writes
             .iter()
-            .map(|(ms, yields, ks, key)| {
+            .zip(case.kinds.iter().copied())
+            .map(|((ms, yields, ks, key), kind)| {
                 let h = nodes[1].handle.clone();
                 let clock = nodes[1].node.clock().clone();
                 let name = ks_name(*ks);
@@ -586,7 +610,12 @@ pub mod repair_race {
                     for _ in 0..yields {
                         let _ = clock.get_time().await;
                     }
-                    let _ = h.put(&name, key, vec![7u8; 2], Consistency::None).await;
+                    match kind {
+                        0 => drop(h.put(&name, key, vec![7u8; 2], Consistency::None).await),
+                        1 => drop(h.del(&name, key, Consistency::None).await),
+                        2 => drop(h.put_many(&name, vec![(key, vec![7u8; 2]), (key + 10, vec![8u8; 1])], Consistency::None).await),
+                        _ => drop(h.del_many(&name, vec![key, key + 10], Consistency::None).await),
+                    }
                 })
             })
             .collect();
@@ -614,6 +643,9 @@ pub mod repair_race {
         let mut labels = vec![];
         if shared {
             labels.push("local_first_use_of_a_name_the_peer_holds");
+        }
+        if fresh.store.inner.lock().injected > 0 {
+            labels.push("a_storage_write_failed");
         }
         Ok(Pass { nontrivial: shared, labels })
     }
